@@ -22,6 +22,9 @@ pub trait Euc: EucRing + Enc where for<'a> &'a Self: EucRingOps<Self> {
     fn div_round(_a: &Self, _b: &Self) -> Option<Self> { None }
     fn units() -> Vec<Self>;
     fn small(parts: &[i64]) -> Option<Self>;
+    /// machine integers: values at and around the ends of the type's range (division and nearest-integer division
+    /// are total there except MIN / -1, so the exact answer is demanded on the whole range)
+    fn extremes(_rng: &mut StdRng) -> Vec<Self> { vec![] }
 }
 
 fn mag<T: Scalar>(x: &T) -> BigInt where for<'a> &'a T: yui::RingOps<T> { x.parts().into_iter().map(|p| p.abs()).max().unwrap_or_else(BigInt::zero) }
@@ -37,6 +40,15 @@ macro_rules! impl_euc_int { ($t:ty) => {
         fn div_round(a: &Self, b: &Self) -> Option<Self> { Some(DivRound::div_round(a, b)) }
         fn units() -> Vec<Self> { vec![<$t>::one(), -<$t>::one()] }
         fn small(p: &[i64]) -> Option<Self> { <$t as ToBig>::from_big(&BigInt::from(p[0])) }
+        fn extremes(rng: &mut StdRng) -> Vec<Self> {
+            let Some(n) = <$t as ToBig>::bits() else { return vec![] };
+            let two = BigInt::from(2);
+            let p = |k: u32| num_traits::pow(two.clone(), k as usize);
+            let mut v: Vec<BigInt> = vec![-p(n - 1), -p(n - 1) + 1, p(n - 1) - 1, p(n - 1) - 2, p(n - 2), p(n - 2) + 1, p(n - 2) - 1, -p(n - 2), -p(n - 2) - 1,
+                p(n - 3) * 3, -p(n - 3) * 3, p(n - 4) * 5, p(n - 4) * 6, -p(n - 4) * 5, -p(n - 4) * 7, p(n - 3) * 3 + 1, BigInt::from(1), BigInt::from(-1), BigInt::from(2), BigInt::from(-3)];
+            for _ in 0..6 { let x = rand_big(rng, (n - 1) as u64); v.push(x); }
+            v.iter().filter_map(|x| <$t as ToBig>::from_big(x)).collect()
+        }
     }
 }}
 impl_euc_int!(i32); impl_euc_int!(i64); impl_euc_int!(i128); impl_euc_int!(BigInt);
@@ -127,7 +139,7 @@ impl_euc_poly!(FF<3>, json!({"k":"F","p":3}), 4);
 impl_euc_poly!(FF<5>, json!({"k":"F","p":5}), 4);
 
 #[derive(Default)]
-pub struct Stats { pub events: usize, pub panics: usize, pub pairs: usize, pub maxbits: u64, pub exact_div: usize, pub ties: usize, pub outside: usize }
+pub struct Stats { pub events: usize, pub panics: usize, pub pairs: usize, pub maxbits: u64, pub exact_div: usize, pub ties: usize, pub outside: usize, pub extreme_pairs: usize }
 
 fn ev<T: Euc>(op: &str) -> Value where for<'a> &'a T: EucRingOps<T> { json!({"op": op, "ring": T::ring(), "type": T::name(), "res": "ok"}) }
 
@@ -180,6 +192,24 @@ fn pair<T: Euc>(t: &mut Tracer, st: &mut Stats, a: &T, b: &T) where for<'a> &'a 
     }
 }
 
+/// division and nearest-integer division only (machine integers on their full range)
+fn pair_div<T: Euc>(t: &mut Tracer, st: &mut Stats, a: &T, b: &T) where for<'a> &'a T: EucRingOps<T> {
+    st.pairs += 1;
+    let mut e = ev::<T>("divrem"); e["a"] = a.enc(); e["b"] = b.enc();
+    match guarded(|| (a / b, a % b)) {
+        Ok((q, r)) => { e["q"] = q.enc(); e["r"] = r.enc(); }
+        Err(m) => { e["res"] = json!("panic"); e["panic"] = json!(m); st.panics += 1; }
+    }
+    t.emit(&e); st.events += 1;
+    let mut e = ev::<T>("divround"); e["a"] = a.enc(); e["b"] = b.enc();
+    match guarded(|| T::div_round(a, b)) {
+        Ok(Some(q)) => { e["q"] = q.enc(); }
+        Ok(None) => return,
+        Err(m) => { e["res"] = json!("panic"); e["panic"] = json!(m); st.panics += 1; }
+    }
+    t.emit(&e); st.events += 1;
+}
+
 fn single<T: Euc>(t: &mut Tracer, st: &mut Stats, a: &T, rng: &mut StdRng) where for<'a> &'a T: EucRingOps<T> {
     emit_guarded(t, st, "unit", a, None, |e| {
         let inv = a.inv(); e["isu"] = json!(a.is_unit()); e["hasinv"] = json!(inv.is_some()); e["inv"] = inv.unwrap_or_else(T::one).enc();
@@ -204,6 +234,12 @@ fn run_type<T: Euc>(a: &Args, salt: u64, t: &mut Tracer, st: &mut Stats, n: usiz
     // spec -> impl: operand pairs enumerated by TLC
     let vals: Vec<T> = enumerated.iter().filter_map(|p| guarded(|| T::small(p)).ok().flatten()).collect();
     for x in vals.iter() { single(t, st, x, &mut rng); for y in vals.iter() { pair(t, st, x, y); } }
+    // machine integers: the ends of the range (the quotient always fits except MIN / -1)
+    let ex = T::extremes(&mut rng);
+    if let Some(min) = ex.first().cloned() {
+        let m1 = -T::one();
+        for x in ex.iter() { for y in ex.iter() { if y.is_zero() || (*x == min && *y == m1) { continue } st.extreme_pairs += 1; pair_div(t, st, x, y); } }
+    }
     // random operands: mostly of the default magnitude, some large; planted exact divisions q*b + r
     let (dbits, lbits) = T::bits(big);
     for i in 0..n {
@@ -240,5 +276,5 @@ pub fn record(a: &Args) {
     run!(FF2, "F2", 13); run!(FF<3>, "F3", 14); run!(FF<5>, "F5", 15); run!(FF<7>, "F7", 16);
     run!(Poly<'x', Ratio<i64>>, "PQ", 17); run!(Poly<'x', Ratio<BigInt>>, "PQ", 18); run!(Poly<'x', FF<3>>, "PF3", 19); run!(Poly<'x', FF<5>>, "PF5", 20);
     let nev = t.finish();
-    summary("record", json!({"events": nev, "operand_pairs": st.pairs, "types": types, "panics": st.panics, "planted_exact_divisions": st.exact_div, "planted_ties": st.ties, "machine_overflows_outside_envelope": st.outside}));
+    summary("record", json!({"events": nev, "operand_pairs": st.pairs, "types": types, "panics": st.panics, "planted_exact_divisions": st.exact_div, "planted_ties": st.ties, "machine_overflows_outside_envelope": st.outside, "full_range_machine_int_pairs": st.extreme_pairs}));
 }
